@@ -304,7 +304,8 @@ func finish(rr *runResult, noReplay bool, t0 time.Time) {
 			inconcl = append(inconcl, "native replay failed to run: "+oneLine(err.Error()))
 			continue
 		}
-		if len(rep) == 1 && contains(rep[0].Failures, v.Label) {
+		crashed := len(rep) == 1 && v.CrashOK && (rep[0].Status == "crashed-before-output" || strings.HasPrefix(rep[0].Status, "panic"))
+		if len(rep) == 1 && (contains(rep[0].Failures, v.Label) || crashed) {
 			confirmed++
 			violLines = append(violLines, fmt.Sprintf("VIOLATION property=%s replay=%s", id, tp))
 			replayNotes = append(replayNotes, fmt.Sprintf("%s: %s reproduced natively (%s)", filepath.Base(tp), v.Label, rep[0].Status))
